@@ -68,9 +68,30 @@ bool Interp::exec_coll(Interp &I, const Stmt &s)
         PortVal d = I.get(a.at(0));
         Port<void> out;
         if (a.size() == 1) out = wire<stdlib::map_>(w, f, Port<S_TSD>{w, d.ref});
+        else if (a.size() == 2 && I.get(a.at(1)).shape == "tsd")
+            out = wire<stdlib::map_>(w, f, Port<S_TSD>{w, d.ref}, Port<S_TSD>{w, I.get(a.at(1)).ref});      // two multiplexed dictionaries
         else if (a.size() == 2) out = wire<stdlib::map_>(w, f, Port<S_TSD>{w, d.ref}, I.pi(a.at(1)));
         else throw std::runtime_error("map arity");
         I.env[s.dst] = PortVal{out.template as<S_TSD>().erased(), PT::Other, "tsd"};
+        return true;
+    }
+    if (s.op == "elem")
+    {
+        // elem <tsl port> <i>: projection of one element of a fixed list output (siblings share the owning output)
+        PortVal v = I.get(a.at(0));
+        if (v.shape != "tsl") throw std::runtime_error("elem needs a tsl port");
+        auto e = tsl_element(Port<S_TSL>{w, v.ref}, (std::size_t)std::atoll(a.at(1).c_str()));
+        I.env[s.dst] = PortVal{e.erased(), PT::Int, "ts"};
+        return true;
+    }
+    if (s.op == "towin")
+    {
+        // towin <ts> uid=<mirror uid> period=<n> min=<m> [ticks=1]: stdlib to_window over a duration (n, m in smallest steps)
+        // or a tick count; the window is mirrored tick by tick
+        Port<void> win;
+        if (s.kwi("ticks", 0)) win = wire<stdlib::to_window>(w, I.pi(a.at(0)), Int{s.kwi("period", 3)}, Int{s.kwi("min", 1)});
+        else win = wire<stdlib::to_window>(w, I.pi(a.at(0)), TimeDelta{MIN_TD.count() * s.kwi("period", 3)}, TimeDelta{MIN_TD.count() * s.kwi("min", 1)});
+        wire<CMirrorAny>(w, win, uid);
         return true;
     }
     if (s.op == "maperr")
